@@ -31,12 +31,13 @@ TRACK = ["skfem.assembly.basis.cell_basis:CellBasis.project", "skfem.assembly.ba
          "skfem.utils:condense", "skfem.utils:solve", "skfem.utils:solve_linear", "skfem.models.elasticity:linear_elasticity"]
 REQUIRED_MONITORS = ["patch-test-poisson", "patch-test-reaction-diffusion", "patch-test-elasticity",
                      "dirichlet-values-reproduced", "projection-identity-whole", "projection-identity-restricted-basis",
-                     "projection-identity-elements-keyword", "projection-identity-boundary", "projection-identity-curved"]
+                     "projection-identity-elements-keyword", "projection-identity-boundary", "projection-identity-curved",
+                     "projection-identity-callable"]
 REQUIRED_REACH = ["mixed-dirichlet-neumann", "pure-dirichlet", "boundary-projection-used", "nodal-values-used",
                   "non-affine-degree-one", "graded-mesh", "vector-element-projection", "hdiv-hcurl-projection",
                   "neumann-part-as-overlapping-tags", "constrained-by-enforce-then-condense",
                   "two-splits-on-one-assembled-system", "complex-valued-projection", "complex-valued-boundary-projection",
-                  "solution-of-small-magnitude"]
+                  "solution-of-small-magnitude", "straight-second-order-mesh", "projection-of-callable"]
 
 # (record name, degree of the manufactured solution)
 COMPLETE = {
@@ -132,19 +133,27 @@ def scalar_patch(ctx, k, kind):
     recs = COMPLETE[kind]
     name, deg = recs[k % len(recs)]
     rec = EL.by_name(name)
-    general = (kind in ("quad", "hex") and deg == 1 and k % 2 == 1)
+    # options drawn from the rng, not from k (k also selects the element: shared factors would freeze combinations)
+    opt_general, opt_small, opt_tags, opt_two, opt_enf, opt_o2 = (bool(rng.random() < q) for q in (0.5, 0.2, 0.4, 0.5, 0.5, 0.25))
+    general = (kind in ("quad", "hex") and deg == 1 and opt_general)
     if general:
         mc = G.quad_mesh(rng, style="distorted") if kind == "quad" else G.hex_mesh(rng, style=str(rng.choice(["extruded", "jiggled"])))
         ctx.reached("non-affine-degree-one")
     else:
         mc = affine_mesh(ctx, rng, kind, k)
+    if opt_o2 and not general and kind in ("tri", "quad", "tet", "hex") and rec.name in (
+            "ElementTriP1", "ElementTriP2", "ElementQuad1", "ElementQuad2", "ElementTetP1", "ElementTetP2", "ElementHex1", "ElementHex2") \
+            and mc.mesh.t.shape[1] <= 60:
+        # the same affine cells described by a straight second-order mesh: isoparametric maps, normals, Newton inverse
+        mc = G.second_order(rng, mc, curved=False)
+        ctx.reached("straight-second-order-mesh")
     mesh = mc.mesh
     if mesh.t.shape[1] > ctx.scale(120, 400):
         raise Skip("mesh-too-large")
     d = mc.dim
     u = rand_poly(rng, d, deg)
     mag = 1.0
-    if k % 5 == 3:
+    if opt_small:
         # the same problem in small units of the unknown (nanometre displacements in metres): linear, hence scale free
         mag = 2.0 ** -32
         u = X.pscale(u, Fraction(mag))
@@ -169,7 +178,7 @@ def scalar_patch(ctx, k, kind):
         if d == 1:
             # 1-D: boundary "integral" is a point evaluation with outward normal
             fb = skfem.FacetBasis(mesh, rec.make(), facets=Nfac)
-        elif Nfac.size >= 2 and k % 3 == 0:
+        elif Nfac.size >= 2 and opt_tags:
             # the natural part named by a list of two overlapping facet tags: their union, each facet once
             N1 = Nfac[: max(1, (2 * Nfac.size) // 3)]
             N2 = Nfac[Nfac.size // 3:]
@@ -201,7 +210,7 @@ def scalar_patch(ctx, k, kind):
         else:
             xD = basis.project(lambda x: u_fn(x))   # the exact coefficient vector restricted by condense to D
         xe = None
-        if k % 2 == 0 and Nfac.size and can_project:
+        if opt_two and Nfac.size and can_project:
             # another split of the same boundary solved first from the same assembled A and load vector: the whole
             # boundary constrained (by enforce); the mixed split below then reuses A
             Dall = basis.get_dofs()
@@ -212,7 +221,7 @@ def scalar_patch(ctx, k, kind):
             ctx.check(monitor, e1 <= 1e-7 * (n1 + 1e-300) + 1e-12 * mag, mech=f"patch-test:{name.split('(')[0]}:first-of-two-splits",
                       error=e1, norm=n1, **tag)
             ctx.reached("two-splits-on-one-assembled-system")
-        if k % 2 == 0:
+        if opt_enf:
             # the other way of constraining, on the same assembled system, before it is condensed
             xe = skfem.solve(*skfem.enforce(A, b, x=xD, D=Dd))
             ctx.reached("constrained-by-enforce-then-condense")
@@ -294,7 +303,7 @@ def elasticity_patch(ctx, k, kind):
     A = linear_elasticity(lam, mu).assemble(basis)
     b = skfem.LinearForm(lambda v, w: sum(f_fns[i](w.x) * v[i] for i in range(d))).assemble(basis)
     Dfac, Nfac = boundary_split(rng, mesh, allow_empty_dirichlet=False)
-    if Nfac.size >= 2 and k % 3 == 0:
+    if Nfac.size >= 2 and rng.random() < 0.4:
         N1 = Nfac[: max(1, (2 * Nfac.size) // 3)]
         N2 = Nfac[Nfac.size // 3:]
         fb = skfem.FacetBasis(mesh.with_boundaries({"n1": N1, "n2": N2}), skfem.ElementVector(base.make()),
@@ -354,7 +363,7 @@ def projection(ctx, k, kind):
         mc = G.first_order(ctx.rng("again", tries), kind)
     if mc.mesh.t.shape[1] > 300:
         raise Skip("mesh-too-large")
-    curved = kind in ("tri", "quad", "tet", "hex") and rnd % 3 == 2
+    curved = kind in ("tri", "quad", "tet", "hex") and rng.random() < 0.3
     if curved:
         mc = G.second_order(rng, mc, curved=True)
     mesh = mc.mesh
@@ -377,7 +386,7 @@ def projection(ctx, k, kind):
     y = basis.project(basis.interpolate(x))
     ctx.close("projection-identity-curved" if (curved and not mc.straight) else "projection-identity-whole", y, x, rtol=1e-8,
               scale=float(np.abs(x).max()), mech=f"projection:{base}", **tag)
-    cplx = rnd % 2 == 1 or rec.name in ("ElementTriP2", "ElementQuad2", "ElementTetP1")
+    cplx = rng.random() < 0.4 or rec.name in ("ElementTriP2", "ElementQuad2", "ElementTetP1")
     if cplx:
         # complex-valued functions of the space (dtype= as documented)
         xc = x + 1j * rng.standard_normal(basis.N)
@@ -388,6 +397,29 @@ def projection(ctx, k, kind):
         ctx.close("projection-identity-whole" if not (curved and not mc.straight) else "projection-identity-curved", yc, xc,
                   rtol=1e-8, scale=float(np.abs(xc).max()), mech=f"projection-complex:{base}", **tag)
         ctx.reached("complex-valued-projection")
+    # a function given as a callable (not built from the basis' own tabulation: wrong basis values, dx or quadrature
+    # points cancel in project(interpolate(x))): a polynomial of the space, judged at the nodes / through interpolation
+    # (on a curved mesh only the iso-degree elements contain the global polynomials: left to the identity above)
+    degp = rec.complete if mc.affine_cells else min(1, rec.complete)
+    if not curved and degp is not None and degp >= 0 and not rec.vector_valued and rec.family == "h1" and "(" not in rec.name.replace("Pp(", "").replace("QuadP(", ""):
+        pol = np_poly(rand_poly(rng, mc.dim, int(degp)))
+        yp = basis.project(lambda x_: pol(x_))
+        if rec.nodal:
+            locs = np.asarray(basis.doflocs)
+            okn = np.isfinite(locs).all(axis=0)
+            refp = pol(locs[:, okn])
+            ctx.close("projection-identity-callable", yp[okn], refp, rtol=1e-8, scale=float(np.abs(refp).max()) + 1e-300,
+                      mech=f"projection-of-callable:{base}", degree=int(degp), **tag)
+        else:
+            uh = np.array(basis.interpolate(yp))
+            refq = pol(np.array(basis.global_coordinates()))
+            ctx.close("projection-identity-callable", uh, refq, rtol=1e-8, scale=float(np.abs(refq).max()) + 1e-300,
+                      mech=f"projection-of-callable:{base}", degree=int(degp), **tag)
+        # a constant given as a number
+        yc2 = basis.project(2.5)
+        ctx.close("projection-identity-callable", np.array(basis.interpolate(yc2)), 2.5 + 0 * np.array(basis.interpolate(yc2)),
+                  rtol=1e-8, scale=2.5, mech=f"projection-of-constant:{base}", **tag)
+        ctx.reached("projection-of-callable")
     nt = mesh.t.shape[1]
     S = np.sort(rng.choice(nt, size=max(1, nt // 2), replace=False)).astype(np.int32)
     # (1) basis restricted at construction: reproduces x on the DOFs of S for any x
